@@ -8,9 +8,12 @@ python-pptx and of Pillow, and what the property statement promises about it.
   72 when absent or implausible; the docs of `Image.dpi` define implausible as "less than 1 or greater than 2048" and
   say an *integer* dpi is produced, so both the raw value and the nearest integer(s) are accepted (weaker reading),
   each replaced by 72 when outside [1, 2048].
-* `native_ok`, `aspect_ok` - size = pixels * 914400 / dpi to within 1 EMU; the missing dimension preserves the
-  aspect ratio of the native size to within 1 EMU (+ the propagation of the 1-EMU rounding of a non-integral
-  native size).
+* `native_ok`             - size = pixels * 914400 / dpi, evaluated in exact rational arithmetic: a shape size is
+  a whole number of EMU, so when the exact value is a whole number the size must BE that number (nothing to
+  round), otherwise it may be either neighbouring integer (floor or ceiling; the statement does not say which
+  way a fractional EMU goes).
+* `aspect_ok`             - the missing dimension preserves the aspect ratio of the native size to within 1 EMU
+  (+ the propagation of the 1-EMU rounding of a non-integral native size).
 * `FORMATS`                - extension(s) and content type of each generated format (from the statement / IANA).
 * `sniff(blob)`            - format by magic number (used only for images the library supplies itself and for the
   images of initial decks).
@@ -20,6 +23,7 @@ from __future__ import annotations
 
 import math
 import struct
+from fractions import Fraction
 
 EMU_PER_INCH = 914400
 
@@ -173,9 +177,23 @@ def effective_dpis(d):
     return out
 
 
+def native_exact(px, c):
+    """px * 914400 / c as an exact rational (c: int or float dpi, taken at its exact binary value)."""
+    return Fraction(px * EMU_PER_INCH) / Fraction(c)
+
+
 def native_ok(px, d, got):
-    """got == px * 914400 / dpi to within 1 EMU for one of the allowed dpi values."""
-    return any(abs(got - px * EMU_PER_INCH / c) <= 1 for c in effective_dpis(d))
+    """got is px * 914400 / dpi for one of the allowed dpi values: exactly when that is a whole number of EMU,
+    else one of the two neighbouring integers."""
+    for c in effective_dpis(d):
+        exact = native_exact(px, c)
+        if math.floor(exact) <= got <= math.ceil(exact):
+            return True
+    return False
+
+
+def native_expected_exact(px, d):
+    return sorted({native_exact(px, c) for c in effective_dpis(d)})
 
 
 def native_expected(px, d):
